@@ -8,6 +8,7 @@ def main():
         assert m.selftest()
     from . import env, simnet
     simnet.check_patch_points()
+    simnet.selftest_patch_points()
     print('vf selfcheck ok; lomond from', env.LOMOND_DIR)
     return 0
 
